@@ -141,15 +141,15 @@ CLAIMED = {
     "C10": dict(
         text="TLC model-checks FuturePoolImpl.tla (PlusCal transcription of src/Future.cpp: lock-free ring with per-slot sequence "
              "numbers and CAS retry, FastSignal, worker loop, ThreadPool::run with back-pressure, racy counters, spawn/retire under "
-             "the mutex, start/join) over all interleavings for 1-2 clients with queue capacity 1-2: every call executed exactly "
+             "the mutex, start/join) over all interleavings for 1-2 clients with queue capacity 1-2 (thorough: 2 clients x 2 futures on one slot with one worker, the smallest configuration with two clients blocked on a full queue): every call executed exactly "
              "once, join only after completion, ring never overflows, every join eventually returns under fairness. Its state graphs "
              "give schedules that the REAL Future/pool follows under the cooperative scheduler (NSTD_VERIF hooks: every atomic access, "
              "protocol read and pthread call is a scheduling point; pool size and queue capacity overridden to 1-4); random and PCT "
              "schedules cover 1-3 clients x 1-3 futures with restart / abort / idle-retirement variants and heap futures destroyed "
-             "right after join. start/exec/done/join events are validated by TLC against FutureAbs; deadlock, non-termination, "
+             "right after join; every start() overload (22) is called once with checked arguments and results; the pool's FastSignal is also run on its own (judged as a manual-reset event by PrimsAbs); every schedule with at most 1-3 preemptions of small FastSignal programs and small pool configurations is enumerated (preemption-bounded exploration). start/exec/done/join events are validated by TLC against FutureAbs; deadlock, non-termination, "
              "any pthread call on a destroyed primitive and sanitizer reports are violations.",
         ref="5/C10", technique="TLA+ model checking incl. liveness (TLC, PlusCal) + schedule replay through cooperative scheduler with hooks + TLC trace validation",
-        note="Sequential consistency at scheduling-point granularity; configurations beyond 2 clients x 1 future only by random/PCT schedules; queue capacity 1 combined with worker retirement is excluded as unreachable with the shipped constants (DESIGN 5/C10)."),
+        note="Sequential consistency at scheduling-point granularity; configurations beyond 2 clients x 2 futures only by random / PCT / preemption-bounded schedules; the pool constants are reduced through the NSTD_VERIF hook (capacity 1-4, 1-3 workers)."),
     "C01": dict(
         text="TLC model-checks OrderedMap.tla (reference sorted (multi)map incl. hinted inserts, returned iterators and the "
              "comparison bound 2*floor(1.4405*log2(n+2)) from an exact integer table) and AvlImpl.tla (branch-by-branch "
